@@ -405,6 +405,9 @@ fn stack_op(op: &str, n: usize, dotted: bool) -> usize {
         "drop" => { let v = long_list(n, dotted); drop(v); 1 }
         "clone" => { let v = long_list(n, dotted); let w = v.clone(); let r = w.is_cons() as usize; std::mem::forget(v); std::mem::forget(w); r }
         "eq" => { let v = long_list(n, dotted); let w = long_list(n, dotted); let r = (v == w) as usize; std::mem::forget(v); std::mem::forget(w); r }
+        "eq_self" => { let v = long_list(n, dotted); #[allow(clippy::eq_op)] let r = (v == v) as usize; std::mem::forget(v); r }
+        "datum_parse_err" => { let mut t = long_text(n, dotted); t.pop(); let a = lexpr::datum::from_reader(t.as_bytes()).is_err() as usize;
+            t.push(']'); let b = lexpr::datum::from_reader(t.as_bytes()).is_err() as usize; a + b }
         "debug" => { let v = long_list(n, dotted); let s = format!("{:?}", v); std::mem::forget(v); s.len() }
         "print" => { let v = long_list(n, dotted); let s = lexpr::to_string(&v).unwrap(); std::mem::forget(v); s.len() }
         "display" => { let v = long_list(n, dotted); let s = format!("{}", v); std::mem::forget(v); s.len() }
